@@ -45,8 +45,15 @@ Theorem println_values_l e nl args : 2 <= List.length args -> Forall not_literal
   stmt_out e (SPrint nl args) = inl (join_sp (map value_text args) ++ (if nl then ["010"] else [])).
 Proof.
   intros Hlen H. apply println_single_spaces_l; [ exact Hlen | apply find_fmt_no_literal; exact H | ].
-  induction H as [|a args Ha _ IH]; [ constructor | ].
+  clear Hlen. induction H as [|a args Ha _ IH]; [ constructor | ].
   cbn [map]. constructor; [ | exact IH ]. destruct a; [ destruct Ha | reflexivity | reflexivity ].
+Qed.
+
+Lemma concat_shift (l : list bytes) :
+  List.concat (map (cons " ") l) ++ [" "] = " " :: List.concat (map (fun v => v ++ [" "]) l).
+Proof.
+  induction l as [|v l IH]; [ reflexivity | ].
+  cbn [map List.concat app]. rewrite <- app_assoc, IH, <- app_assoc. reflexivity.
 Qed.
 
 (* the printf path: arguments before the format literal are joined by spaces, one more space, then the
@@ -61,13 +68,11 @@ Proof.
   intros Hf Hlen Hpre Hc Hr. unfold stmt_out, print_multiple.
   destruct (pre ++ AQuoted f :: post) as [|a [|b r]] eqn:E; try (cbn in Hlen; lia).
   rewrite Hf, (join_values_true e pre vs Hpre). cbn [rbind]. rewrite Hc, Hr. cbn [rbind].
-  f_equal. rewrite <- !app_assoc.
+  apply f_equal. rewrite <- !app_assoc.
   assert (J : join_sp vs ++ (match pre with [] => [] | _ => [" "] end) = List.concat (map (fun v => v ++ [" "]) vs)).
   { destruct Hpre as [|a0 v0 pre' vs' _ H]; [ reflexivity | ].
-    cbn [join_sp map List.concat]. rewrite <- app_assoc. f_equal.
-    clear -H. revert v0. induction H as [|a1 v1 pre'' vs'' _ _ IH]; intros v0; [ reflexivity | ].
-    cbn [map List.concat app]. rewrite <- app_assoc. cbn [app]. f_equal. apply IH. }
-  rewrite app_assoc, J. rewrite <- !app_assoc. reflexivity.
+    cbn [join_sp map List.concat]. rewrite <- !app_assoc. f_equal. cbn [app]. apply concat_shift. }
+  rewrite app_assoc, J. reflexivity.
 Qed.
 
 (* ---------- order of output ---------- *)
